@@ -416,13 +416,33 @@ def workload(ctx, repo):
     # every offset of a grid: all ordered pairs get compared
     if ctx.worker == 0:
         for mode in R.MODES:
-            inst = 730120 * 86400 + 1800
-            pts = [gen.tp_from_instant(rng, mode, inst + (0, 0, 0, 1, 3600)[
-                       i % 5], offset=off, allow_2400=False)
-                   for i, off in enumerate(gen.OFFSET_GRID)]
+            mid = R.ymd_to_rd(mode, 2000, 6, 16) * 86400
+            for inst, rep in ((730120 * 86400 + 1800, None),
+                              (mid + 2 * 3600, "cal"), (mid + 12 * 3600, "cal"),
+                              (mid + 22 * 3600 + 1800, "cal"),
+                              (mid + 7200, "ord")):
+                pts = [gen.tp_from_instant(
+                    rng, mode, inst + (0, 0, 0, 1, 3600)[i % 5], rep=rep,
+                    offset=off, allow_2400=False)
+                    for i, off in enumerate(gen.OFFSET_GRID)]
+                case = {"op": "cluster", "mode": mode, "points": pts}
+                ctx.case = case
+                ctx.ev("cases.offset-grid")
+                run_case(ctx, repo, case)
+            # the same point with and without formatting attributes (they
+            # are no part of the value)
+            base = gen.tp_from_instant(rng, mode, mid + 5000, rep="cal",
+                                       offset=(1, 0), allow_2400=False)
+            pts = [base, dict(base, dump_format="CCYYMMDDThhmmZ"),
+                   dict(base, dump_format="CCYY-DDDThh:mm:ss+hh:mm",
+                        truncated_dump_format="-DDDThh"),
+                   dict(base, num_expanded_year_digits=2),
+                   gen.tp_from_instant(rng, mode, mid + 5000, rep="week",
+                                       offset=(-5, 0), allow_2400=False)]
+            pts[-1]["dump_format"] = "CCYYWwwDThhZ"
             case = {"op": "cluster", "mode": mode, "points": pts}
             ctx.case = case
-            ctx.ev("cases.offset-grid")
+            ctx.ev("cases.formatting-attributes")
             run_case(ctx, repo, case)
     n = 1500 if ctx.tier == "quick" else 6000
     for k in range(n // 10):
